@@ -519,6 +519,22 @@ class Runner:
                 if op['op'] == 'get_signer':
                     self.do_get_signer(idx, o)
                     continue
+                if op['op'] == 'probe_deleted_signer':
+                    # signer for a certificate (cached by the keychain) -> delete the key -> ask again: must be refused
+                    kn = o['_key']
+                    i, rec = _find_key(w.model, kn)
+                    if rec is None or not rec['keys'][kn]['certs']:
+                        self.events.append((idx, op['op'], 'skipped'))
+                        continue
+                    cn = sorted(rec['keys'][kn]['certs'])[0]
+                    cref = w.certs_created.index(cn) if cn in w.certs_created else None
+                    if cref is None:
+                        continue
+                    sub = {'op': 'get_signer', 'shape': 'cert', 'id': 'a', 'key': 0, 'cert': cref, '_id': '/id/a', '_key': kn, '_cert': cn}
+                    self.do_get_signer(idx, dict(sub))
+                    self.do_mutation(idx, {'op': 'del_key', 'key': o['key'], '_key': kn})
+                    self.do_get_signer(idx, dict(sub))
+                    continue
                 self.do_mutation(idx, o)
                 if w.violations and w.st.fault_at is None:
                     pass
@@ -912,10 +928,17 @@ class Runner:
                 cn = o['_cert']
                 i, kn, kr = _find_cert(m, cn)
                 if kr is None:
-                    self.events.append((idx, 'get_signer', 'skipped-deleted-cert'))
-                    return
-                args['cert'] = Name.from_bytes(cn) if shape == 'cert' else kc[Name.from_bytes(i)][Name.from_bytes(kn)][Name.from_bytes(cn)]
-                exp_key, exp_cert = kn, cn
+                    owner_key = nb(Name.from_bytes(cn)[:-2])
+                    if owner_key in m.deleted_keys and shape == 'cert':
+                        # the certificate's key was deleted: no signer may be handed out for it any more
+                        args['cert'] = Name.from_bytes(cn)
+                        expect_error = True
+                    else:
+                        self.events.append((idx, 'get_signer', 'skipped-deleted-cert'))
+                        return
+                if kr is not None:
+                    args['cert'] = Name.from_bytes(cn) if shape == 'cert' else kc[Name.from_bytes(i)][Name.from_bytes(kn)][Name.from_bytes(cn)]
+                    exp_key, exp_cert = kn, cn
             elif shape == 'digest':
                 args['digest_sha256'] = True
             elif shape == 'none':
@@ -1148,7 +1171,9 @@ def generate(rng, seed, tier='quick'):
             if rng.random() < 0.3:
                 op['key_locator'] = rng.choice(['x', 'y'])
             ops.append(op)
-        elif x < 0.97:
+        elif x < 0.955:
+            ops.append({'op': 'probe_deleted_signer', 'key': rng.randint(0, 7)})
+        elif x < 0.98:
             ops.append({'op': 'reopen'})
         else:
             ops.append({'op': 'crash'})
